@@ -727,7 +727,15 @@ class MemorizedFunc(Logger):
                 # hash. This is more likely to falsely change than have hash
                 # collisions, thus we are on the safe side.
                 func_hash = self._hash_func()
-                if func_hash == known_hashes.get(self.store_backend.location):
+                if func_hash == known_hashes.get(
+                    self.store_backend.location
+                ) and self.store_backend._item_exists(
+                    os.path.join(
+                        self.store_backend.location, self.func_id, "func_code.py"
+                    )
+                ):
+                    # (the recorded code is still there: another process may
+                    # have cleared the cache since it was validated)
                     return True
         except TypeError:
             # Some callables are not hashable
